@@ -38,6 +38,8 @@ QUICK = [
                    "FldNames": "<- Flds2", "Prelude": "<- PreCopyFn", "MaxN": "4", "MaxStk": "2", "MaxStmts": "1"}, None),
     ("shadowuse", {"Fam": "<- FamOps", "LitPool": "<- LitsSA", "Names": "<- Names1", "BinOps": "<- Ops1",
                    "Prelude": "<- PreShadowUse", "MaxN": "3", "MaxStk": "2", "MaxStmts": "1"}, None),
+    ("shadowuse2", {"Fam": "<- FamOps", "LitPool": "<- LitsSA", "Names": "<- Names1", "BinOps": "<- Ops1",
+                    "Prelude": "<- PreShadowUse2", "MaxN": "3", "MaxStk": "2", "MaxStmts": "1"}, None),
     ("moduse", {"Fam": "<- FamModUse", "LitPool": "<- Lits2", "Names": "<- Names1", "BinOps": "<- Ops1",
                 "FldNames": "<- FldsP", "CastTys": "<- CastsIS", "Prelude": "<- PreMod", "MaxN": "4", "MaxStk": "2",
                 "MaxStmts": "1"}, None),         # the instance of a module as an operand
